@@ -327,6 +327,13 @@ def run_case(case):
     for x in locs1:
         if x[0] == "bad":
             viol.append({"key": "cfi:directive-on-" + x[1], "msg": ""})
+    zs = [(x[0], x[1]) for x in locs1
+          if x[0] != "bad" and x[2] != int(x[2])]
+    if len(zs) != len(set(zs)):
+        # two zero-sized blocks at one address both carry directives: the IR
+        # gives them no order, so neither does it give the directives one
+        ctr["unordered_zero_sized_cfi_blocks"] = 1
+        return {"sig": None, "violations": viol, "counters": ctr}
     tl1, err1 = evaluate(locs1)
     ctr["outputs_evaluated"] += 1
     deleted_any = any(e["op"] in ("del", "rep", "delfn") and (
@@ -336,6 +343,13 @@ def run_case(case):
         if cfi_patch_into_wholly_deleted_procedure(case):
             # (F55)
             ctx += ":cfi-patch-at-a-procedure-deleted-in-the-same-rewrite"
+        elif any(isinstance(e.get("p"), dict) and e["p"].get("cfi_kind") and
+                 boundary_inside_adjacent_deletion(
+                     case, rwbase.find_block(case, e["b"]), e["b"], e["i"])
+                 for e in case["edits"] if e.get("op") in ("ins", "rep")):
+            # (F55, second form) the boundary is not deleted but re-homed
+            # to the insertion point, behind / in front of the patch
+            ctx += ":cfi-patch-next-to-a-deleted-range-holding-a-boundary"
         viol.append({"key": f"cfi:output-does-not-evaluate:{ctx}:"
                             f"{err1.split(':')[1][:40]}",
                      "msg": err1})
@@ -514,11 +528,25 @@ def prev_block_end_edited(case, lst0, bid):
     """does the code block physically in front of bid have an edit that
     touches its end (insertion at the end, replacement/deletion reaching it)"""
     prev = None
+    # (the block that physically precedes it after the rewrite: zero-sized
+    # blocks and wholly deleted blocks in between are gone)
+    gone = set()
+    for e in case["edits"]:
+        if e.get("op") == "del" and e["i"] == 0:
+            n_ = len(lst0.block_info[e["b"]]["blk"]["items"])
+            if n_ and e["n"] >= n_ and not lst0.block_info[e["b"]]["code"]:
+                gone.add(e["b"])      # (data; a deleted code block counts
+                #                        as edited at its end, below)
     for s in case["secs"]:
         seq = [b for iv in s["ivs"] for b in iv["blocks"]]
         for k, b in enumerate(seq):
-            if b["id"] == bid and k:
-                prev = seq[k - 1]
+            if b["id"] == bid:
+                j = k - 1
+                while j >= 0 and (seq[j]["id"] in gone or
+                                  not seq[j]["items"]):
+                    j -= 1
+                if j >= 0:
+                    prev = seq[j]
     if prev is None or not prev["code"]:
         return False
     n = len(prev["items"])
